@@ -246,13 +246,13 @@ def scenario_signature(rec, sc, clause):
     if sc["rate"] > 1:
         first, late = {}, False
         for h in sc["hist"]:
-            if h["op"] in ("Resume", "Throw", "Drop") and h["f"] == "G":
+            if h["op"] in ("Resume", "Throw", "Drop") and h["f"] in ("G", "C"):     # generators and coroutines alike
                 if h["id"] not in first:
                     first[h["id"]] = h["draw"]
                 elif first[h["id"]] != 0 and h["draw"] == 0:
                     late = True
         sig["sampled"] = True
-        if clause in ("ArgNames", "ArgTypes", "ReturnAbsentOnException", "ReturnPresent", "ReturnType", "YieldsOnly", "YieldsCovered"):
+        if clause in ("ArgNames", "ArgTypes", "ReturnAbsentOnException", "ReturnPresent", "ReturnType", "YieldsOnly", "YieldsCovered") and sc["rate"] > 1:
             # which completed call a distorted entry is compared with is ambiguous under sampling
             sig["clause"] = "Faithful"
         sig["generator_sampled_after_skipped_first_entry"] = late
@@ -309,7 +309,34 @@ def stat_runs(seed, tier):
                 S.frames.clear()
         p = 1.0 if not rate or rate == 1 else 1.0 / rate
         lo, hi = (n, n) if p == 1.0 else binom_interval(n, p)
-        out.append({"rate": rate or 0, "n": n, "traced": L.n, "lo": lo, "hi": hi})
+        out.append({"rate": rate or 0, "n": n, "traced": L.n, "lo": lo, "hi": hi, "code_filter": True})
+    # the same without any code filter (Config.code_filter() returns None by default): only f_mod's traces are counted
+    for rate in (2, 10):
+        random.seed(seed * 1000 + 500 + rate)
+        cnt = [0]
+        f = env["M"].f_mod
+
+        class L2:
+            def log(self, t):
+                if t.func is f:
+                    cnt[0] += 1
+
+            def flush(self):
+                pass
+        from mtfx import script
+        S = script.S
+        S.reset([], {}, absmodel.abs_value)
+        n2 = 1500 if tier == "quick" else 20000
+        with mtt.trace_calls(L2(), 0, None, rate):
+            for _ in range(n2):
+                S.actions, S.pos = [{"op": "Return", "how": "expr", "val": 1, "id": None}], 0
+                S._pending_entry = {"ev": "Call", "f": "f_mod", "kind": "plain", "wanted": True, "caller": 0, "catch": True, "args": []}
+                f(1)
+                S.events.clear()
+                S.keep.clear()
+                S.frames.clear()
+        lo, hi = binom_interval(n2, 1.0 / rate)
+        out.append({"rate": rate, "n": n2, "traced": cnt[0], "lo": lo, "hi": hi, "code_filter": False})
     return out
 
 
